@@ -171,6 +171,15 @@ func propDefs() map[string]propDef {
 			"bounded time itself, scheduling and the Go runtime are not decided: what is proved is that no worker can sit in a blocking operation that cancellation cannot end"},
 		Explain: "blocking-effect obligations decided structurally on the symbolic execution of every worker: each potentially blocking operation (channel send/receive, select without default, call to a function that may block) is a select with a <-ctx.Done() arm, a send on a channel made by the function with provable room (SMT obligation), a call to a callee verified cancellable, or one of the two declared external blocking calls with their wake-up mechanism (os.OpenFile abandoned via the ready select, ReadString ended by file.Close from the ctx.Done goroutine); plus 'no callback after the loop has ended'",
 	}
+	const dr = "processors/auditd/dirreader."
+	m["C20"] = propDef{ID: "C20", Level: "proof",
+		Units: []unit{u(dr + "sortLogNamesOldToNew"), u(dr + "readLines"), u(dr + "readFilePathLines"), u(dr + "(*rotatingFile).read"), u(dr + "(*rotatingFile).setOffset"),
+			u(dr + "(*rotatingFile).incOffsetBy"), u(dr + "(*rotatingFile).getOffset")},
+		Assume: []string{bufioDoc, "sort.Slice sorts in place with respect to the caller's less closure (assumed contract, evaluated symbolically on the closure body)",
+			"file names with the prefix audit.log in the directory are audit.log or audit.log.N with N >= 1 in canonical decimal",
+			"loopWithError (goroutines, select over fsnotify events) is not under contract: only the functions it calls are; fsnotify event delivery and the OS are not decided"},
+		Explain: "sortLogNamesOldToNew: the result contains exactly the kept directory entries and is ordered by age (audit.log.N before audit.log.M for N > M, the live log last) — for any number of files; readLines: loop invariant over the assumed bufio contract: the lines sent are exactly the complete records without their newline, in order, and the byte count is the sum of the complete records (the unterminated tail is neither delivered nor counted); rotatingFile.read: create/remove/rename reset the offset, other events leave everything unchanged, a write event delivers the complete lines after the offset and advances it by whole lines only",
+	}
 	m["C14"] = propDef{ID: "C14", Level: "proof",
 		Units: trk(
 			nil,
